@@ -638,9 +638,21 @@ func (fv *FuncVer) modBlock(blk *Block, ms *modSet) {
 		return
 	}
 	env := &SpecEnv{fv: fv, pkg: fv.eng.pkgOfBlock(blk)}
+	defer func() {
+		// pointee:<param> cannot be resolved statically: fall back to everything
+		if r := recover(); r != nil {
+			if _, ok := r.(specError); ok {
+				ms.all = true
+				return
+			}
+			panic(r)
+		}
+	}()
 	for _, k := range fv.parseAssigns(as, env) {
 		if k == "*" {
 			ms.all = true
+		} else if strings.HasPrefix(k, "pointee|") {
+			ms.heaps[fv.pointees[k].key] = true
 		} else {
 			ms.heaps[k] = true
 		}
